@@ -281,7 +281,13 @@ REQ_TOKS = [
     ["foo;python_version>'3'"], ["zope.interface!=5.0"], ["Django[argon2,bcrypt]>=3.2,<4"], ["six"], ["foo", "[bar]", "==", "2.*"],
 ]
 BAD_REQ_TOKS = [["foo", "bar"], ["=1.0"], ["foo=="], ["@@@"], ["foo", "--config", "x"], ["fo\\o"], ["#x"]]
-URLS = ["http://x/simple", "https://pypi.org/simple/", "http://h:8080/a/b", "./links", "../wheels", "/abs/links", "https://u:p@h/s/", "file:///w"]
+URLS = ["http://x/simple", "https://pypi.org/simple/", "http://h:8080/a/b", "./links", "../wheels", "/abs/links", "https://u:p@h/s/", "file:///w",
+        # locations with the separators real index URLs / directories carry (_ - . ~ + % ? = & @ :)
+        "https://host/api/pypi/team_python/simple", "./wheel_cache", "http://h/a-b_c.d/~u/+simple", "https://host/simple?token=a_b%20c&x=1",
+        "third_party/wheels-1.0", "https://mirror.example/wheel_mirror/simple/"]
+PLAIN_URLS = ["http://x/simple", "https://pypi.org/simple/", "http://h:8080/a/b", "https://u:p@h/s/", "https://host/api/pypi/team_python/simple",
+              "http://h/a-b_c.d/~u/+simple", "https://host/simple?token=a_b%20c&x=1", "https://mirror.example/wheel_mirror/simple/"]
+PLAIN_DIRS = ["./links", "../wheels", "./wheel_cache", "third_party/wheels-1.0", "/abs/links_x"]
 ODD_URLS = ["http://x/a#frag", '"http://x/simple"', "'./my-links'", "http://x//", "=x", "-weird"]
 OWN_URLS = ["http://cli/simple", "http://x/simple", "https://pypi.org/simple", "http://a", "http://y/s"]   # overlap with URLS on purpose
 SP = [" ", " ", " ", "  ", "\t", " \t "]
@@ -339,6 +345,19 @@ def g_opt(rng, conv: bool) -> Dict[str, Any]:
             first, rest = kind + "=" + val, []
         else:
             first, rest = kind + val, []
+    # an option line is a small command line: more options may follow on the same line
+    while rng.random() < 0.25 and len(rest) < 8:
+        k2 = rng.choice(["--index-url", "--extra-index-url", "--extra-index-url", "--find-links", "-i", "-f", "--pre", "--no-index", "--trusted-host"])
+        if k2 in ("--index-url", "-i") and (kind in ("--index-url", "-i") or any(w.startswith(("--index-url", "-i")) for _, w in rest)):
+            k2 = "--extra-index-url"      # pip keeps only the last --index-url of a line (a `store` option)
+        v2 = "h2.example" if k2 == "--trusted-host" else rng.choice(URLS)
+        g2 = ("s", rng.choice(SP)) if rng.random() < 0.85 else g_gap(rng, conv)
+        if k2 in ("--pre", "--no-index"):
+            rest = rest + [(g2, k2)]
+        elif k2.startswith("--") and rng.random() < 0.3:
+            rest = rest + [(g2, k2 + "=" + v2)]
+        else:
+            rest = rest + [(g2, k2), (("s", rng.choice(SP)), v2)]
     tl = g_tail(rng, (not conv) and rng.random() < 0.5)
     if (not conv) and rng.random() < 0.15:
         first, rest = rng.choice(["--requirement=inc0.txt", "-c", "--index_url", "--help", "-rinc.txt", "--no-index=1", "--index", "--e"]), \
@@ -657,7 +676,7 @@ def run_file_cases(ctx: Ctx, cases: List[Dict[str, Any]]) -> None:
                     dl = decl_of_tokens(mean["opts"])
                     if po is not None and dl is not None:     # option lines use options pip knows
                         ctx.count("pip:" + po["kind"])
-                        if po["kind"] != "OK" or po["reqs"] != want_reqs or po["decl"] != dl:
+                        if po["kind"] != "OK" or po["reqs"] != want_reqs or set(map(tuple, po["decl"])) != set(dl):
                             ctx.mismatch("pip-oracle-vs-spec:" + c["name"], show, po, {"reqs": want_reqs, "decl": dl})
         else:
             cli_s, bzl_s = ans.split(" | ")
@@ -1043,9 +1062,14 @@ def oracle_tree(ctx: Ctx, items: List[Dict[str, Any]], tag: str) -> Optional[str
     po = pip_read(root)
     if po is not None and po["kind"] == "OK" and po["reqs"] != im["reqs"]:
         return f"pip reads {po['reqs']}, the tool reads {im['reqs']}"
+    got_decl = decl_of_tokens(im["params"])
+    if po is not None and po["kind"] == "OK" and decl_of_tokens(opts) is not None and \
+            (got_decl is None or set(got_decl) != set(map(tuple, po["decl"]))):     # as sets: pip reports per line, flags once
+        return f"pip takes the options {po['decl']}, the tool's collected option tokens declare {got_decl}"
     # front-ends: only files whose option lines are all plain long-form index directives at column 0
     plain = all(i["k"] != "N" or not py_meaning(i["sub"] or [])[1] for i in items) and \
-        all(i["k"] != "O" or (i["ind"] == "" and i["first"].split("=")[0] in ("--index-url", "--extra-index-url")
+        all(i["k"] != "O" or (i["ind"] == "" and i["first"].split("=")[0] in ("--index-url", "--extra-index-url", "--find-links")
+                              and len(i["rest"]) == (0 if "=" in i["first"] else 1)       # one directive per line
                               and all(g[0] == "s" and set(g[1]) == {" "} for g, _ in i["rest"])
                               and i["tail"][0] == "0" and set(i["tail"][1]) <= {" "}) for i in items)
     if plain and any(i["k"] == "O" for i in items):
@@ -1057,7 +1081,18 @@ def oracle_tree(ctx: Ctx, items: List[Dict[str, Any]], tag: str) -> Optional[str
         decl = decl_of_tokens(opts) or []
         if {u.rstrip("/") for k, u in decl if k == "index"} != {u.rstrip("/") for u in c[1]}:
             return f"declared index urls are not honoured by the command line: {c[1]}"
+        if {u.rstrip("/") for k, u in decl if k == "extra"} != {u.rstrip("/") for u in c[2]}:
+            return f"declared extra index urls are not honoured by the command line: {c[2]}"
+        want_links = sorted({os.path.normpath(os.path.join(os.path.dirname(root), u)) for k, u in decl if k == "find"})
+        if sorted(b[3]) != want_links:
+            return f"Bazel front-end find-links {sorted(b[3])} differ from the declared {want_links}"
+        if not CLI_IGNORES_FIND_LINKS and sorted(c[3]) != sorted(u for k, u in decl if k == "find"):
+            return f"command line find-links {sorted(c[3])} differ from the declared {[u for k, u in decl if k == 'find']}"
     return None
+
+
+# known finding C16-cli-ignores-find-links: until it is repaired the command line's find-links are not compared
+CLI_IGNORES_FIND_LINKS = True
 
 
 def _search_items(rng, k: int) -> List[Dict[str, Any]]:
@@ -1075,8 +1110,8 @@ def _plain_directives(rng, items: List[Dict[str, Any]]) -> None:
         if i["k"] == "N" and i["sub"]:
             strip_opts(i["sub"])
         if i["k"] == "O":
-            nm = rng.choice(["--index-url", "--extra-index-url"])
-            v = rng.choice(URLS[:3] + ["https://u:p@h/s/"])
+            nm = rng.choice(["--index-url", "--extra-index-url", "--extra-index-url", "--find-links"])
+            v = rng.choice(PLAIN_DIRS if nm == "--find-links" else PLAIN_URLS)
             if rng.random() < 0.5:
                 i.update(ind="", first=nm + "=" + v, rest=[], tail=("0", rng.choice(["", " "])))
             else:
